@@ -113,7 +113,7 @@ def edit_in_place(rng, d, t):
         nodes = []
     terms = [(p, n) for p, n in nodes if n["c"] in ("Word", "Phrase")]
     inner = [(p, n) for p, n in nodes if len(n["ch"]) >= 2 and n["c"].endswith("Operation")]
-    if not terms and not inner:
+    if not terms and not inner and not any("num" in n for _, n in common.tree_nodes(d)):
         return None
     d2 = copy.deepcopy(d)
 
@@ -138,6 +138,18 @@ def edit_in_place(rng, d, t):
             at_json(d2, p)["ch"][i] = repl
             setattr(node, names[i], common.load_tree(repl))
             return d2
+    num_nodes = [(p, n) for p, n in common.tree_nodes(d) if "num" in n]
+    if num_nodes and (rng.random() < 0.35 or (not terms and not inner)):
+        # the number of a fuzzy / proximity / boost assigned in place (`node.degree = Decimal(2)`), implicit ones
+        # included: what is printed (nothing, for an implicit one) stays, the value is the new one
+        # (seeded C09-H: the clone of an implicit number re-derives the default instead of copying the value)
+        from decimal import Decimal
+        p, n = rng.choice(num_nodes)
+        node = at_obj(t, p)
+        new = Decimal(rng.choice(["2", "3", "0.25"])) if n["c"] != "Proximity" else rng.choice([2, 3, 7])
+        setattr(node, "force" if n["c"] == "Boost" else "degree", new)
+        at_json(d2, p)["num"] = common.num_json(new, n["num"].get("imp"))
+        return d2
     if terms and (not inner or rng.random() < 0.7):
         p, n = rng.choice(terms)
         v = rng.choice(["edited", "bar", "x"]) if n["c"] == "Word" else rng.choice(['"edited"', '"a b"'])
@@ -365,7 +377,9 @@ class SharedObjects:
         todo = [("a tree on which the call fails", dd) for dd in poison if dd is not None]
         if deep and self.rng.random() < deep:
             todo.append(("a deeply nested tree (the call gives up with RecursionError)", self.deep_poison(d)))
-        todo += [("the same tree", d)]
+        # (twice: what a first answer -- a refusal in particular -- leaves behind must not change the second one;
+        # seeded C07-H: a memo of the fields already examined, filled before the check that then raises)
+        todo += [("the same tree", d), ("the same tree, a second time", d)]
         for _ in range(mutants):
             mu = gen.mutate_tree(self.rng, d)
             if mu is not None:
